@@ -254,7 +254,7 @@ def run(tier: str, seed: int) -> int:
                              "families": r.choice([["qp", "qp_quartic", "qp_softplus"]] * 3 + [["bench"], ["rosen", "styb"]]),
                              "box": r.choice(["both", "both", "mixed", "lower", "upper", "degenerate"]),
                              "small_budgets": False,
-                             "override": {"maxiter": 200, "maxfun": 15000, "ftol": r.choice([1e-5, 0.0, 0.0]), "gtol": r.choice([1e-5, 1e-6])},
+                             "override": {"maxiter": 200, "maxfun": 15000, "maxls": 20, "ftol": r.choice([1e-5, 0.0, 0.0]), "gtol": r.choice([1e-5, 1e-6])},
                              "compare": True}
         if i % 5 == 1:
             # ... and together with a gradient scaler (the differencing works on the unscaled objective)
@@ -286,7 +286,7 @@ def run(tier: str, seed: int) -> int:
              "start / at the solution, narrow (1e-10..1e-6) and tiny-scale boxes, eps / rel_step settings: no exception, every evaluated point "
              "(stencils included) in the box exactly, nfev = objective calls, njev = gradients, value compared with the exact-gradient run on "
              "convex problems (whatever message the finite-difference run carries, budgets apart), a fifth of the runs with a constant gradient scaler, a sixth on objectives returning float32 values (default steps; at least half of the exact-gradient run's decrease); replayed through the Lean driver model; non-trivial = at least one iteration",
-        assumptions=["objectives finite on the box", "value comparison only when the exact-gradient run stops on the projected-gradient test (ftol = 0) and the finite-difference run is not stopped by a budget"])
+        assumptions=["objectives finite on the box", "line searches of up to 20 trials (with a single trial per search a run may give up far from the solution whatever the gradient)", "value comparison only when the exact-gradient run stops on the projected-gradient test (ftol = 0) and the finite-difference run is not stopped by a budget"])
 
 
 def replay(path: str) -> int:
